@@ -35,6 +35,24 @@ import (
 
 type listenCase struct {
 	Hex string `json:"datagram"`
+	// Config: how the listening client was built — 0 no controllers configured, 1 the sending
+	// controller configured as a bare struct literal (no address, no doors, nil time zone), 2 the
+	// sending controller configured through uhppote.NewDevice
+	Config int `json:"config,omitempty"`
+}
+
+// listenCfg is the client configuration of this (child) process.
+var listenCfg int
+
+func listenDevices() []uhppote.Device {
+	serial := uint32(serialLE[0]) | uint32(serialLE[1])<<8 | uint32(serialLE[2])<<16 | uint32(serialLE[3])<<24
+	switch listenCfg {
+	case 1:
+		return []uhppote.Device{{DeviceID: serial}}
+	case 2:
+		return []uhppote.Device{uhppote.NewDevice("c04", serial, types.ControllerAddr{}, "udp", nil, nil)}
+	}
+	return nil
 }
 
 type recorder struct {
@@ -51,7 +69,7 @@ func (l *recorder) OnConnected() { close(l.connected) }
 func (l *recorder) OnEvent(s *types.Status) {
 	l.events.Add(1)
 	cur := l.cur
-	l.c.renderAll(s, "delivered to Listener.OnEvent", "listen", func() any { return listenCase{hex.EncodeToString(cur)} })
+	l.c.renderAll(s, "delivered to Listener.OnEvent", "listen", func() any { return listenCase{hex.EncodeToString(cur), listenCfg} })
 	l.evDone <- struct{}{}
 }
 
@@ -60,7 +78,7 @@ func (l *recorder) OnError(err error) bool {
 	if err != nil {
 		cur := l.cur
 		if p, msg, frame := vk.Guard(func() { _ = err.Error() }); p {
-			l.c.panicked(frame, "the error handed to Listener.OnError panicked in Error(): "+msg, "listen", listenCase{hex.EncodeToString(cur)})
+			l.c.panicked(frame, "the error handed to Listener.OnError panicked in Error(): "+msg, "listen", listenCase{hex.EncodeToString(cur), listenCfg})
 		}
 	}
 	return true
@@ -69,7 +87,7 @@ func (l *recorder) OnError(err error) bool {
 // listenSession feeds the datagrams produced by next() (nil = end) through one uhppote.Listen call.
 func listenSession(c *ctx, next func() []byte, progress *os.File) (events, errs int64) {
 	rec := &recorder{c: c, connected: make(chan struct{}), evDone: make(chan struct{}, 1)}
-	u := uhppote.NewUHPPOTE(types.BindAddr{}, types.BroadcastAddr{}, types.ListenAddr{}, time.Second, nil, false)
+	u := uhppote.NewUHPPOTE(types.BindAddr{}, types.BroadcastAddr{}, types.ListenAddr{}, time.Second, listenDevices(), false)
 	f := &drv.Fake{}
 	stuck := false
 	f.ListenFn = func(signal chan any, done chan any, callback func([]byte)) error {
@@ -87,7 +105,7 @@ func listenSession(c *ctx, next func() []byte, progress *os.File) (events, errs 
 			}
 			before := rec.errs.Load()
 			if p, msg, frame := vk.Guard(func() { callback(b) }); p {
-				c.panicked(frame, "the listener's datagram handler panicked: "+msg, "listen", listenCase{hex.EncodeToString(b)})
+				c.panicked(frame, "the listener's datagram handler panicked: "+msg, "listen", listenCase{hex.EncodeToString(b), listenCfg})
 				continue
 			}
 			if rec.errs.Load() != before {
@@ -112,7 +130,7 @@ func listenSession(c *ctx, next func() []byte, progress *os.File) (events, errs 
 	go func() {
 		var err error
 		if p, msg, frame := vk.Guard(func() { err = u.Listen(rec, q) }); p {
-			c.panicked(frame, "Listen panicked: "+msg, "listen", listenCase{hex.EncodeToString(rec.cur)})
+			c.panicked(frame, "Listen panicked: "+msg, "listen", listenCase{hex.EncodeToString(rec.cur), listenCfg})
 		}
 		finished <- err
 	}()
@@ -141,6 +159,12 @@ func listenSession(c *ctx, next func() []byte, progress *os.File) (events, errs 
 
 // eventDatagrams enumerates the datagrams of the listener sweep in a fixed order; fn returns false to stop.
 func eventDatagrams(thorough bool, fn func(i int64, b []byte)) (total, distinct int64) {
+	return eventDatagramsX(thorough, false, fn)
+}
+
+// reduced: only the position x value sweep over the two well-formed samples and the header sweep
+// (used for the client configurations other than the default one).
+func eventDatagramsX(thorough, reduced bool, fn func(i int64, b []byte)) (total, distinct int64) {
 	var i int64
 	emit := func(b []byte) { fn(i, b); i++ }
 	samples := [2][]byte{statusBody(0x17), statusBody(0x19)}
@@ -148,6 +172,9 @@ func eventDatagrams(thorough bool, fn func(i int64, b []byte)) (total, distinct 
 	for _, sample := range samples {
 		for bi, fill := range []int{0x00, -1, 0x99, 0xff} {
 			_ = bi
+			if reduced && fill >= 0 {
+				continue
+			}
 			b := make([]byte, 64)
 			if fill < 0 {
 				copy(b, sample)
@@ -170,7 +197,7 @@ func eventDatagrams(thorough bool, fn func(i int64, b []byte)) (total, distinct 
 		}
 	}
 	// (2) lengths 0..2048 x 5 patterns
-	for pat := 0; pat < 5; pat++ {
+	for pat := 0; pat < 5 && !reduced; pat++ {
 		for n := 0; n <= 2048; n++ {
 			b := make([]byte, n)
 			switch pat {
@@ -192,7 +219,9 @@ func eventDatagrams(thorough bool, fn func(i int64, b []byte)) (total, distinct 
 		}
 		distinct += 2049
 	}
-	distinct -= 4 // the zero-length datagram recurs
+	if !reduced {
+		distinct -= 4 // the zero-length datagram recurs
+	}
 	// (3) protocol id x function code x 2 bodies
 	for _, s := range []byte{0x00, 0x17, 0x19, 0xff} {
 		for code := 0; code < 256; code++ {
@@ -210,7 +239,7 @@ func eventDatagrams(thorough bool, fn func(i int64, b []byte)) (total, distinct 
 	}
 	distinct += 4 * 256 * 2
 	// (4) thorough: every adjacent byte pair over all 65536 values on both samples
-	if thorough {
+	if thorough && !reduced {
 		for _, sample := range samples {
 			b := append([]byte{}, sample...)
 			for p := 0; p < 63; p++ {
@@ -254,7 +283,12 @@ func listenWorker(r *vk.Run, progressPath string) {
 	res := workerResult{}
 	switch {
 	case strings.HasPrefix(r.Worker, "listen1:"):
-		b, err := hex.DecodeString(strings.TrimPrefix(r.Worker, "listen1:"))
+		rest := strings.TrimPrefix(r.Worker, "listen1:")
+		if i := strings.Index(rest, ":"); i >= 0 {
+			listenCfg, _ = strconv.Atoi(rest[:i])
+			rest = rest[i+1:]
+		}
+		b, err := hex.DecodeString(rest)
 		if err != nil {
 			fmt.Fprintf(os.Stderr, "bad datagram: %v\n", err)
 			os.Exit(2)
@@ -270,9 +304,12 @@ func listenWorker(r *vk.Run, progressPath string) {
 		}, progress)
 	default:
 		var k, n int64 = 0, 1
-		if parts := strings.Split(strings.TrimPrefix(r.Worker, "listen:"), "/"); len(parts) == 2 {
+		if parts := strings.Split(strings.TrimPrefix(r.Worker, "listen:"), "/"); len(parts) >= 2 {
 			k, _ = strconv.ParseInt(parts[0], 10, 64)
 			n, _ = strconv.ParseInt(parts[1], 10, 64)
+			if len(parts) == 3 {
+				listenCfg, _ = strconv.Atoi(parts[2])
+			}
 		}
 		// the enumeration is pushed through a channel-free pull adapter: collect this worker's share
 		// chunk by chunk (a chunk = one Listen session of up to 4096 datagrams)
@@ -293,7 +330,7 @@ func listenWorker(r *vk.Run, progressPath string) {
 			res.Errors += er
 			chunk = chunk[:0]
 		}
-		eventDatagrams(r.Thorough(), func(i int64, b []byte) {
+		eventDatagramsX(r.Thorough(), listenCfg != 0, func(i int64, b []byte) {
 			if i%n != k {
 				return
 			}
@@ -419,13 +456,19 @@ func (ch *listenChild) wait(r *vk.Run) (res workerResult, ok bool) {
 			datagram = hex.EncodeToString(p[4 : 4+n])
 		}
 	}
-	r.Violation("C04/panic/"+frame, "the process crashed while the listener handled an event datagram (panic on the library's own goroutine, not recoverable by the caller): "+msg, "listen", listenCase{datagram})
+	cfg := 0
+	if parts := strings.Split(strings.TrimPrefix(ch.spec, "listen:"), "/"); strings.HasPrefix(ch.spec, "listen:") && len(parts) == 3 {
+		cfg, _ = strconv.Atoi(parts[2])
+	} else if rest := strings.TrimPrefix(ch.spec, "listen1:"); strings.HasPrefix(ch.spec, "listen1:") && strings.Contains(rest, ":") {
+		cfg, _ = strconv.Atoi(rest[:strings.Index(rest, ":")])
+	}
+	r.Violation("C04/panic/"+frame, fmt.Sprintf("the process crashed while the listener (client configuration %d: 0 = no controllers, 1 = sender configured as a bare Device literal, 2 = sender configured with NewDevice) handled an event datagram (panic on the library's own goroutine, not recoverable by the caller): %s", cfg, msg), "listen", listenCase{datagram, cfg})
 	r.NotExhaustive("the listener sweep share " + ch.spec + " was cut short by a process crash")
 	return res, false
 }
 
 func replayListen(r *vk.Run, lc listenCase) {
-	ch := startListenChild(r, "listen1:"+lc.Hex, 0)
+	ch := startListenChild(r, fmt.Sprintf("listen1:%d:%s", lc.Config, lc.Hex), 0)
 	if ch == nil {
 		return
 	}
